@@ -232,8 +232,13 @@ func (w *world) snap() string {
 		}
 	}
 	l := func(x []string) string { return "[" + strings.Join(x, ",") + "]" }
-	return fmt.Sprintf("bal=%s sbal=%s r4bal=%s mbal=%s mact=%d naccts=%d ssum=%s f1=%s f2=%s fc1=%d fc2=%d af1=%s u1=%s u1api=%s u2=%s u2api=%s st1=%s st2=%s",
-		l(bal), l(sbal), l(r4bal), cs(m.Accounts.Balance), m.Accounts.Active, n, cs(sum), w.fundingRows(false), w.fundingRows(true), fc1, fc2,
+	// the exported account listing must stay readable and agree with the row count
+	alist := "err"
+	if accs, err := w.store.Accounts(1000, 0); err == nil {
+		alist = fmt.Sprint(len(accs))
+	}
+	return fmt.Sprintf("alist=%s bal=%s sbal=%s r4bal=%s mbal=%s mact=%d naccts=%d ssum=%s f1=%s f2=%s fc1=%d fc2=%d af1=%s u1=%s u1api=%s u2=%s u2api=%s st1=%s st2=%s",
+		alist, l(bal), l(sbal), l(r4bal), cs(m.Accounts.Balance), m.Accounts.Active, n, cs(sum), w.fundingRows(false), w.fundingRows(true), fc1, fc2,
 		l(api), l(u1), l(u1api), l(u2), l(u2api), l(st1), l(st2))
 }
 
